@@ -785,6 +785,26 @@ def corpus():
                 Program([Func('main', ['y', 'xs'], None,
                               [A('i', V('y')), Node('for', PV('i'), V('xs'), [Node('pass')]), Node('return', V('i'))])]),
                 [[N.fin(1), [N.fin(10), N.fin(20)]]], {}, None))
+    # a destructuring assignment in a loop whose right-hand side is constant only on the first analysis pass
+    # (the loop-carried variable has a constant value before the loop): stale facts for the tuple's targets
+    PTn = lambda *xs: Node('ptuple', [PV(x) for x in xs])   # noqa: E731
+    for ctxs in (CtxSpec('FP64'), None):
+        out.append(('tuple_binding_in_loop' + ('' if ctxs else '_noctx'),
+                    Program([Func('main', ['n'], ctxs,
+                                  [A('x', lit(1)), A('s', lit(0)), A('i', lit(0)),
+                                   Node('while', Node('cmp', ['<'], [V('i'), V('n')]),
+                                        [Node('assign', PTn('a', 'b'), Node('tuple', [V('x'), add(V('x'), lit(1))])),
+                                         A('s', add(V('s'), V('a'))), A('x', add(V('x'), V('b'))), A('i', add(V('i'), lit(1)))]),
+                                   Node('return', Node('tuple', [V('s'), V('x')]))])]),
+                    [[N.fin(0)], [N.fin(1)], [N.fin(3)]], {}, None))
+    out.append(('tuple_binding_in_for',
+                Program([Func('main', ['xs'], CtxSpec('FP64'),
+                              [A('x', lit(2)), A('s', lit(0)),
+                               Node('for', PV('v'), V('xs'),
+                                    [Node('assign', PTn('a', 'b'), Node('tuple', [add(V('x'), V('x')), V('x')])),
+                                     A('s', add(V('s'), add(V('a'), V('b')))), A('x', add(V('x'), V('v')))]),
+                               Node('return', V('s'))])]),
+                [[[N.fin(1), N.fin(2), N.fin(3)]], [[]]], {}, None))
     return out
 
 
